@@ -34,6 +34,56 @@ Theorem arg_normal_form : forall n f d o, mk_argument n f d = Ok o -> arg_normal
 Proof. exact arg_normal_form_lemma. Qed.
 Print Assumptions arg_normal_form.
 
+(* ---- the hand model re-checked against the source on every build ----
+   Generated/GenFlags.v is what harness/translate.py (a fail-closed translator of a small pure subset of Python) makes of
+   the flag constants of AbstractOption / Option / Argument and of their _validate_flags and _add_default_flags in the
+   source tree at hand; bin/setup regenerates it before every build.  option_validate_flags calls
+   abstractoption_validate_flags where the code calls super()._validate_flags, likewise _add_default_flags; has_short is
+   bool(self._short_name).  The validation and normalisation functions of the model ARE those functions, for every integer: *)
+From Clikit Require Generated.GenFlags Proofs.GenEquivLemmas.
+Theorem abs_validate_matches_source : forall f, GenFlags.abstractoption_validate_flags f = abs_validate f.
+Proof. exact GenEquivLemmas.gen_abs_validate_eq. Qed.
+Print Assumptions abs_validate_matches_source.
+Theorem opt_validate_matches_source : forall f, GenFlags.option_validate_flags f = opt_validate f.
+Proof. exact GenEquivLemmas.gen_opt_validate_eq. Qed.
+Print Assumptions opt_validate_matches_source.
+Theorem arg_validate_matches_source : forall f, GenFlags.argument_validate_flags f = arg_validate f.
+Proof. exact GenEquivLemmas.gen_arg_validate_eq. Qed.
+Print Assumptions arg_validate_matches_source.
+Theorem abs_defaults_matches_source : forall f has_short,
+  GenFlags.abstractoption_add_default_flags has_short f = abs_defaults f has_short.
+Proof. exact GenEquivLemmas.gen_abs_defaults_eq. Qed.
+Print Assumptions abs_defaults_matches_source.
+Theorem opt_defaults_matches_source : forall f has_short,
+  GenFlags.option_add_default_flags has_short f = opt_defaults f has_short.
+Proof. exact GenEquivLemmas.gen_opt_defaults_eq. Qed.
+Print Assumptions opt_defaults_matches_source.
+Theorem arg_defaults_matches_source : forall f, GenFlags.argument_add_default_flags f = arg_defaults f.
+Proof. exact GenEquivLemmas.gen_arg_defaults_eq. Qed.
+Print Assumptions arg_defaults_matches_source.
+(* the flag words of the classes are the bit numbers used above *)
+Theorem flag_constants_match_source :
+  GenFlags.AbstractOption_PREFER_LONG_NAME = (2 ^ 0)%Z /\ GenFlags.AbstractOption_PREFER_SHORT_NAME = (2 ^ 1)%Z /\
+  GenFlags.Option_NO_VALUE = (2 ^ 2)%Z /\ GenFlags.Option_REQUIRED_VALUE = (2 ^ 3)%Z /\
+  GenFlags.Option_OPTIONAL_VALUE = (2 ^ 4)%Z /\ GenFlags.Option_MULTI_VALUED = (2 ^ 5)%Z /\
+  GenFlags.Option_STRING = (2 ^ 7)%Z /\ GenFlags.Option_BOOLEAN = (2 ^ 8)%Z /\ GenFlags.Option_INTEGER = (2 ^ 9)%Z /\
+  GenFlags.Option_FLOAT = (2 ^ 10)%Z /\ GenFlags.Option_NULLABLE = (2 ^ 11)%Z /\
+  GenFlags.Argument_REQUIRED = (2 ^ 0)%Z /\ GenFlags.Argument_OPTIONAL = (2 ^ 1)%Z /\
+  GenFlags.Argument_MULTI_VALUED = (2 ^ 2)%Z /\ GenFlags.Argument_STRING = (2 ^ 4)%Z /\
+  GenFlags.Argument_BOOLEAN = (2 ^ 5)%Z /\ GenFlags.Argument_INTEGER = (2 ^ 6)%Z /\ GenFlags.Argument_FLOAT = (2 ^ 7)%Z /\
+  GenFlags.Argument_NULLABLE = (2 ^ 8)%Z.
+Proof. exact GenEquivLemmas.gen_flag_constants. Qed.
+Print Assumptions flag_constants_match_source.
+(* ... so the acceptance condition of the flag word is a statement about the translated code itself *)
+Theorem source_opt_flags_accept_iff : forall f,
+  GenFlags.option_validate_flags f = if opt_flags_ok f then Ok tt else Err ValueError.
+Proof. intros f. rewrite GenEquivLemmas.gen_opt_validate_eq. exact (opt_validate_iff f). Qed.
+Print Assumptions source_opt_flags_accept_iff.
+Theorem source_arg_flags_accept_iff : forall f,
+  GenFlags.argument_validate_flags f = if arg_flags_ok f then Ok tt else Err ValueError.
+Proof. intros f. rewrite GenEquivLemmas.gen_arg_validate_eq. exact (arg_validate_iff f). Qed.
+Print Assumptions source_arg_flags_accept_iff.
+
 (* Conversion by the declared type: a value of that type, or None only when nullable and the
    input is None/"null", or ValueError - never another exception (inputs None/bool/int/str). *)
 Theorem conv_typed : forall t nl v, conv_input v = true ->
